@@ -51,3 +51,55 @@ Proof. intros [c s l] v. unfold gen_pool_Put, pool_put, go_append. cbn [p_cache 
 
 Theorem gen_pool_locked : gen_pool_Get_locked = true /\ gen_pool_Put_locked = true.
 Proof. split; reflexivity. Qed.
+
+(** ---- sequences of operations on the TRANSLATED functions ---- *)
+
+(** [gen_run] drives gen_pool_Get / gen_pool_Put exactly as [Pool.pool_run] drives the model: [out] is the list of
+    outstanding values, a Put of a value that is not outstanding ends the run (the discipline the client keeps);
+    a Go panic (None from a translated function) ends it too. *)
+Fixpoint gen_run (cache : list N) (start limit : Z) (out : list N) (ops : list pool_op)
+  : option (list N * Z * list N * list (option N)) :=
+  match ops with
+  | [] => Some (cache, start, out, [])
+  | PGet :: r =>
+      match gen_pool_Get cache start limit with
+      | None => None
+      | Some (v, ok, cache', start') =>
+          let res := if ok then Some (Z.to_N v) else None in
+          let out' := if ok then Z.to_N v :: out else out in
+          match gen_run cache' start' limit out' r with
+          | Some (c, s, o, rs) => Some (c, s, o, res :: rs)
+          | None => None
+          end
+      end
+  | PPut v :: r =>
+      if mem v out then
+        match gen_pool_Put cache start limit (Z.of_N v) with
+        | None => None
+        | Some (cache', start') => gen_run cache' start' limit (remove1 v out) r
+        end
+      else None
+  end.
+
+Definition enc_run (r : option (pool * list N * list (option N))) : option (list N * Z * list N * list (option N)) :=
+  match r with
+  | Some (pf, o, res) => Some (rev (p_cache pf), Z.of_N (p_start pf), o, res)
+  | None => None
+  end.
+
+Lemma pool_get_limit : forall p, p_limit (snd (pool_get p)) = p_limit p.
+Proof. intros [c s l]. unfold pool_get. cbn [p_cache p_start p_limit]. destruct c; [destruct (s =? l)%N|]; reflexivity. Qed.
+
+Theorem gen_run_is_model : forall ops p out,
+  gen_run (rev (p_cache p)) (Z.of_N (p_start p)) (Z.of_N (p_limit p)) out ops = enc_run (pool_run p out ops).
+Proof.
+  induction ops as [|op ops IH]; intros p out; [reflexivity|].
+  destruct op as [|v]; cbn [gen_run pool_run].
+  - rewrite gen_pool_Get_is_model. pose proof (pool_get_limit p) as L.
+    destruct (pool_get p) as [[v|] p'] eqn:E; cbn [enc_get snd] in *; rewrite <- L, ?N2Z.id, IH;
+      destruct (pool_run p' _ ops) as [[[pf o] res]|]; reflexivity.
+  - destruct (mem v out); [|reflexivity].
+    rewrite gen_pool_Put_is_model.
+    replace (Z.of_N (p_limit p)) with (Z.of_N (p_limit (pool_put p v))) by reflexivity.
+    apply IH.
+Qed.
